@@ -2,6 +2,7 @@ package env
 
 import (
 	"fmt"
+	"sync"
 	"time"
 
 	corev1 "k8s.io/api/core/v1"
@@ -73,6 +74,8 @@ func (s *Server) beginRev(verb, ns, name string) (*Req, error) {
 }
 
 func (s *Server) RevCreate(ns string, cr *v1alpha1.ControllerRevision) (*v1alpha1.ControllerRevision, error) {
+	s.Mu.Lock()
+	defer s.Mu.Unlock()
 	req, err := s.beginRev("create", ns, cr.Name)
 	req.Rev = cr.DeepCopy()
 	if err != nil {
@@ -103,6 +106,8 @@ func revControllerRefs(cr *v1alpha1.ControllerRevision) int {
 }
 
 func (s *Server) RevUpdate(ns string, cr *v1alpha1.ControllerRevision) (*v1alpha1.ControllerRevision, error) {
+	s.Mu.Lock()
+	defer s.Mu.Unlock()
 	req, err := s.beginRev("update", ns, cr.Name)
 	req.Rev = cr.DeepCopy()
 	if err != nil {
@@ -134,6 +139,8 @@ func (s *Server) RevUpdate(ns string, cr *v1alpha1.ControllerRevision) (*v1alpha
 }
 
 func (s *Server) RevDelete(ns, name string, opts metav1.DeleteOptions) error {
+	s.Mu.Lock()
+	defer s.Mu.Unlock()
 	req, err := s.beginRev("delete", ns, name)
 	if opts.Preconditions != nil && opts.Preconditions.UID != nil {
 		u := *opts.Preconditions.UID
@@ -160,6 +167,8 @@ func (s *Server) RevDelete(ns, name string, opts metav1.DeleteOptions) error {
 }
 
 func (s *Server) RevGet(ns, name string) (*v1alpha1.ControllerRevision, error) {
+	s.Mu.Lock()
+	defer s.Mu.Unlock()
 	req, err := s.beginRev("get", ns, name)
 	if err != nil {
 		return nil, err
@@ -243,6 +252,7 @@ type QueueOp struct {
 }
 
 type Queue struct {
+	mu    sync.Mutex
 	Ops   []QueueOp
 	Items []interface{}
 }
@@ -255,11 +265,15 @@ func keyString(item interface{}) string {
 }
 
 func (q *Queue) Add(item interface{}) {
+	q.mu.Lock()
+	defer q.mu.Unlock()
 	q.Ops = append(q.Ops, QueueOp{Op: "add", Key: keyString(item)})
 	q.Items = append(q.Items, item)
 }
 func (q *Queue) Len() int { return len(q.Items) }
 func (q *Queue) Get() (interface{}, bool) {
+	q.mu.Lock()
+	defer q.mu.Unlock()
 	if len(q.Items) == 0 {
 		return nil, true
 	}
@@ -267,17 +281,25 @@ func (q *Queue) Get() (interface{}, bool) {
 	q.Items = q.Items[1:]
 	return it, false
 }
-func (q *Queue) Done(item interface{}) { q.Ops = append(q.Ops, QueueOp{Op: "done", Key: keyString(item)}) }
-func (q *Queue) ShutDown()             {}
-func (q *Queue) ShutDownWithDrain()    {}
-func (q *Queue) ShuttingDown() bool    { return false }
+func (q *Queue) Done(item interface{}) {
+	q.Ops = append(q.Ops, QueueOp{Op: "done", Key: keyString(item)})
+}
+func (q *Queue) ShutDown()          {}
+func (q *Queue) ShutDownWithDrain() {}
+func (q *Queue) ShuttingDown() bool { return false }
 func (q *Queue) AddAfter(item interface{}, d time.Duration) {
+	q.mu.Lock()
+	defer q.mu.Unlock()
 	q.Ops = append(q.Ops, QueueOp{Op: "add-after", Key: keyString(item), Delay: d})
 }
 func (q *Queue) AddRateLimited(item interface{}) {
+	q.mu.Lock()
+	defer q.mu.Unlock()
 	q.Ops = append(q.Ops, QueueOp{Op: "add-rate-limited", Key: keyString(item)})
 }
 func (q *Queue) Forget(item interface{}) {
+	q.mu.Lock()
+	defer q.mu.Unlock()
 	q.Ops = append(q.Ops, QueueOp{Op: "forget", Key: keyString(item)})
 }
 func (q *Queue) NumRequeues(item interface{}) int { return 0 }
@@ -293,14 +315,22 @@ func (q *Queue) Count(op string) int {
 	return n
 }
 
-type Recorder struct{ Events int }
+type Recorder struct {
+	mu     sync.Mutex
+	Events int
+}
 
-func (r *Recorder) Event(object runtime.Object, eventtype, reason, message string) { r.Events++ }
-func (r *Recorder) Eventf(object runtime.Object, eventtype, reason, messageFmt string, args ...interface{}) {
+func (r *Recorder) inc() {
+	r.mu.Lock()
+	defer r.mu.Unlock()
 	r.Events++
 }
+func (r *Recorder) Event(object runtime.Object, eventtype, reason, message string) { r.inc() }
+func (r *Recorder) Eventf(object runtime.Object, eventtype, reason, messageFmt string, args ...interface{}) {
+	r.inc()
+}
 func (r *Recorder) AnnotatedEventf(object runtime.Object, annotations map[string]string, eventtype, reason, messageFmt string, args ...interface{}) {
-	r.Events++
+	r.inc()
 }
 
 var _ = corev1.EventTypeNormal
